@@ -127,6 +127,59 @@ theorem C11_stackToExpr_fuel_sufficient (stack : List Item) :
   stackToExpr_fuel _ _ (by simp [stackFuel])
 #assert_axioms C11_stackToExpr_fuel_sufficient
 
+/-- **held-lock set empty after every evaluation that returns**: for every expression, flag and
+store, if no data lock is held before and the evaluator returns a value or an error, no data lock
+is held afterwards -/
+theorem C11_locks_released {D : Type} (ops : DoubleOps D) (e : Expr) (au : Bool) (st : St D)
+    (h : st.held = []) (ho : (eval ops e au st).2.isValueOrError = true) :
+    (eval ops e au st).1.held = [] := eval_held ops e au st h ho
+#assert_axioms C11_locks_released
+
+/-- the same for `ExpressionParser::execute` on every source text -/
+theorem C11_execute_locks_released {D : Type} (ops : DoubleOps D) (text : Str) (st : St D)
+    (h : st.held = []) (ho : (execute ops text st).2.isValueOrError = true) :
+    (execute ops text st).1.held = [] := by
+  unfold execute at ho ⊢
+  split
+  · rename_i e he
+    simp only [he] at ho
+    exact eval_held ops e false st h ho
+  all_goals exact h
+#assert_axioms C11_execute_locks_released
+
+/-- the evaluator blocks on its own locks only at the four sites where it takes a second lock
+while holding one (`index-array`, `assign`, `assign-undef`, `equal`): every `lock()` taken with
+nothing else held succeeds -/
+theorem C11_deadlock_only_at_second_locks {D : Type} (ops : DoubleOps D) (e : Expr) (au : Bool)
+    (st : St D) (h : st.held = []) : (eval ops e au st).2 ≠ .deadlock .other :=
+  eval_no_deadlock_other ops e au st h
+#assert_axioms C11_deadlock_only_at_second_locks
+
+/-- **no self-deadlock when the operand cells are distinct**: `l = r`, `l ?= r` and `l[i]` do not
+block when the two sub-expressions evaluate to different cells.
+Missing for "never blocks on its own data locks": equal cells (false on the unchanged code:
+`C11_counterexample_assign_self`, `…_assign_undef_self`, `…_index_self`) and `==`/`!=` on
+containers that reach an operand cell (`C11_counterexample_equal_self`). -/
+theorem C11_no_self_deadlock_distinct_partial {D : Type} (ops : DoubleOps D) (l r : Expr) (au : Bool)
+    (st st1 st2 : St D) (a b : Ref) (hst : st.held = []) (s : LockSite) :
+    (eval ops r false st = (st1, .ok a) → eval ops l au st1 = (st2, .ok b) → b.id ≠ a.id →
+      (eval ops (.assign l r) au st).2 ≠ .deadlock s) ∧
+    (eval ops r au st = (st1, .ok a) → eval ops l true st1 = (st2, .ok b) → b.id ≠ a.id →
+      (eval ops (.assignUndef l r) au st).2 ≠ .deadlock s) ∧
+    (eval ops l au st = (st1, .ok a) → eval ops r au st1 = (st2, .ok b) → b.id ≠ a.id →
+      (eval ops (.index l r) au st).2 ≠ .deadlock s) :=
+  ⟨fun h1 h2 h3 => assign_no_deadlock ops l r au st st1 st2 a b hst h1 h2 h3 s,
+   fun h1 h2 h3 => assignUndef_no_deadlock ops l r au st st1 st2 a b hst h1 h2 h3 s,
+   fun h1 h2 h3 => index_no_deadlock ops l r au st st1 st2 a b hst h1 h2 h3 s⟩
+#assert_axioms C11_no_self_deadlock_distinct_partial
+
+/-- non-vacuity: `a = b` with two different cells assigns and holds nothing afterwards -/
+example {D : Type} (ops : DoubleOps D) :
+    (execute ops [97, 32, 61, 32, 98] ⟨[.int 7, .int 8], [([97], ⟨0, false⟩), ([98], ⟨1, false⟩)], []⟩).2
+      = .ok ⟨0, false⟩ ∧
+    (execute ops [97, 32, 61, 32, 98] ⟨[.int 7, .int 8], [([97], ⟨0, false⟩), ([98], ⟨1, false⟩)], []⟩).1.held
+      = [] := ⟨rfl, rfl⟩
+
 /-- no panic from arithmetic other than integer `%` -/
 theorem C11_arithmetic_no_panic_partial {D : Type} (ops : DoubleOps D) (cells : Cells D)
     (held : List Nat) (o : Op) (l r : Data D) (ho : o ≠ .modulus) (s : PanicSite) :
